@@ -1,1 +1,178 @@
-From Ase Require Import Model.Dump.
+(* C11: palettes.  Encoders, well-formedness predicates and the functional specification
+   of the legacy chunks (old_entry, old_bindings, old_palette_spec, last_binding, skip_sum,
+   uncovered, incomplete): Spec/EncodeChunks.v. *)
+From Ase Require Import Model.Validate.
+From Ase Require Import Spec.EncodeChunks.
+From Ase Require Import Proofs.PaletteProofs.
+
+(* new-format chunk: one entry per index in [first, first + n), the stored RGBA and
+   optional name (present iff flag bit 0: wf_pal_entry), nothing outside the range *)
+Theorem C11_new :
+  forall (total first : Z) (entries : list (palentry * Z)) (rsv t : list Z),
+    wf_palette first entries -> junk 8 rsv ->
+    exists m,
+      run_payload dec_palette (enc_palette total first entries rsv ++ t) = Ok m /\
+      (forall i e fl, nthz entries i = Some (e, fl) -> zfind (first + i) m = Some e) /\
+      (forall k, k < first \/ first + zlen entries <= k -> zfind k m = None).
+Proof. exact palette_new. Qed.
+Print Assumptions C11_new.
+
+(* legacy chunks (six = false: 0x0004, six = true: 0x0011): decode = the specification *)
+Theorem C11_old :
+  forall (six : bool) (packets : list (Z * list rgb)) (t : list Z),
+    wf_old_palette six packets ->
+    run_payload (dec_old_palette six) (enc_old_palette packets ++ t) = Ok (old_palette_spec six packets).
+Proof. exact palette_old. Qed.
+Print Assumptions C11_old.
+
+(* later packets overwrite earlier ones *)
+Theorem C11_old_last_wins :
+  forall (six : bool) (packets : list (Z * list rgb)) (k : Z),
+    wf_old_palette six packets ->
+    zfind k (old_palette_spec six packets) = last_binding k (old_bindings six 0 packets).
+Proof. exact old_palette_last_wins. Qed.
+Print Assumptions C11_old_last_wins.
+
+(* one packet (1..256 colours; 256 are written with count byte 0): colour j at id skip + j,
+   opaque, unnamed, 6-bit components scaled (old_entry) *)
+Theorem C11_old_single :
+  forall (six : bool) (s : Z) (cs : list rgb),
+    wf_old_packet six (s, cs) ->
+    (forall j c, nthz cs j = Some c ->
+       zfind (s + j) (old_palette_spec six [(s, cs)]) = Some (old_entry six c)) /\
+    (forall k, k < s \/ s + zlen cs <= k -> zfind k (old_palette_spec six [(s, cs)]) = None).
+Proof. exact palette_old_single. Qed.
+Print Assumptions C11_old_single.
+
+(* the last packet of a chunk starts at the cumulative sum of the skip bytes *)
+Theorem C11_old_offsets :
+  forall (six : bool) (before : list (Z * list rgb)) (s : Z) (cs : list rgb) (j : Z) (c : rgb),
+    wf_old_palette six (before ++ [(s, cs)]) -> nthz cs j = Some c ->
+    zfind (skip_sum before + s + j) (old_palette_spec six (before ++ [(s, cs)])) = Some (old_entry six c).
+Proof. exact palette_old_last_packet. Qed.
+Print Assumptions C11_old_offsets.
+
+(* 6-bit scaling *)
+Theorem C11_scale :
+  (forall c, 0 <= c < 64 -> scale_6bit c = Ret (c * 4 + c / 16)) /\
+  scale_6bit 0 = Ret 0 /\ scale_6bit 63 = Ret 255 /\
+  (forall c d, 0 <= c -> c < d -> d < 64 -> c * 4 + c / 16 < d * 4 + d / 16) /\
+  (forall c, 0 <= c < 64 -> 0 <= c * 4 + c / 16 <= 255) /\
+  (forall c, 64 <= c -> scale_6bit c = Fail EInvalid).
+Proof. exact scale_summary. Qed.
+Print Assumptions C11_scale.
+
+(* precedence: a legacy chunk never touches an existing palette ... *)
+Theorem C11_old_kept :
+  forall (inflate : list Z -> Z -> zres) (fmt : pixfmt) (fid : Z) (p : pinfo) (ty : Z) (data : list Z)
+         (pal : palette),
+    ty = 4 \/ ty = 17 -> pi_palette p = Some pal ->
+    process_chunk inflate fmt fid p (ty, data) = Ok (with_ctx p (Some UOldPalette)).
+Proof. exact process_old_kept. Qed.
+Print Assumptions C11_old_kept.
+
+(* ... it is used only when there is none yet ... *)
+Theorem C11_old_first :
+  forall (inflate : list Z -> Z -> zres) (fmt : pixfmt) (fid : Z) (p : pinfo) (ty : Z) (data : list Z),
+    ty = 4 \/ ty = 17 -> pi_palette p = None ->
+    process_chunk inflate fmt fid p (ty, data)
+    = (pal <-- run_payload (dec_old_palette (ty =? 17)) data ;;;
+       Ok (with_palette (with_ctx p (Some UOldPalette)) (Some pal))).
+Proof. exact process_old_first. Qed.
+Print Assumptions C11_old_first.
+
+(* ... and a new-format chunk always replaces the palette *)
+Theorem C11_new_replaces :
+  forall (inflate : list Z -> Z -> zres) (fmt : pixfmt) (fid : Z) (p : pinfo) (data : list Z),
+    process_chunk inflate fmt fid p (8217, data)
+    = (pal <-- run_payload dec_palette data ;;; Ok (with_palette p (Some pal))).
+Proof. exact process_new. Qed.
+Print Assumptions C11_new_replaces.
+
+(* new-format chunk, then any chunks other than new-format palettes: its palette stays *)
+Theorem C11_precedence_new_first :
+  forall (inflate : list Z -> Z -> zres) (fmt : pixfmt) (fid : Z) (p : pinfo) (data : list Z)
+         (pal : palette) (chunks : list (Z * list Z)) (p' : pinfo),
+    run_payload dec_palette data = Ok pal ->
+    Forall (fun ch => fst ch <> 8217) chunks ->
+    rfold (process_chunk inflate fmt fid) ((8217, data) :: chunks) p = Ok p' ->
+    pi_palette p' = Some pal.
+Proof. exact new_palette_then_others. Qed.
+Print Assumptions C11_precedence_new_first.
+
+(* any chunks, then a new-format chunk: its palette is the result *)
+Theorem C11_precedence_new_last :
+  forall (inflate : list Z -> Z -> zres) (fmt : pixfmt) (fid : Z) (p : pinfo) (data : list Z)
+         (pal : palette) (chunks : list (Z * list Z)) (p' : pinfo),
+    run_payload dec_palette data = Ok pal ->
+    rfold (process_chunk inflate fmt fid) (chunks ++ [(8217, data)]) p = Ok p' ->
+    pi_palette p' = Some pal.
+Proof. exact others_then_new_palette. Qed.
+Print Assumptions C11_precedence_new_last.
+
+(* the two orders of one new and one legacy chunk *)
+Theorem C11_precedence_new_old :
+  forall (inflate : list Z -> Z -> zres) (fmt : pixfmt) (fid : Z) (p : pinfo) (dnew dold : list Z)
+         (ty : Z) (pal : palette),
+    ty = 4 \/ ty = 17 -> run_payload dec_palette dnew = Ok pal ->
+    exists p', rfold (process_chunk inflate fmt fid) [(8217, dnew); (ty, dold)] p = Ok p' /\
+               pi_palette p' = Some pal /\ pi_ctx p' = Some UOldPalette.
+Proof. exact precedence_new_old. Qed.
+Print Assumptions C11_precedence_new_old.
+
+Theorem C11_precedence_old_new :
+  forall (inflate : list Z -> Z -> zres) (fmt : pixfmt) (fid : Z) (p : pinfo) (dnew dold : list Z)
+         (ty : Z) (pal : palette) (p' : pinfo),
+    ty = 4 \/ ty = 17 -> run_payload dec_palette dnew = Ok pal ->
+    rfold (process_chunk inflate fmt fid) [(ty, dold); (8217, dnew)] p = Ok p' ->
+    pi_palette p' = Some pal.
+Proof. exact precedence_old_new. Qed.
+Print Assumptions C11_precedence_old_new.
+
+(* completeness: indexed pixels without a palette, or with an index the palette lacks *)
+Theorem C11_complete_no_palette :
+  forall (fmt : pixfmt) (bg : bool) (l : list Z),
+    validate_pixels None fmt bg (RPIndexed l) = Err EInvalid.
+Proof. exact validate_pixels_no_palette. Qed.
+Print Assumptions C11_complete_no_palette.
+
+Theorem C11_complete_missing :
+  forall (pal : palette) (fmt : pixfmt) (bg : bool) (l : list Z) (i : Z),
+    In i l -> zfind i pal = None -> validate_pixels (Some pal) fmt bg (RPIndexed l) = Err EInvalid.
+Proof. exact validate_pixels_missing. Qed.
+Print Assumptions C11_complete_missing.
+
+(* conversely, what validates is covered *)
+Theorem C11_complete_covered :
+  forall (pal : option palette) (ti : Z) (bg : bool) (l : list Z) (px : pixels),
+    validate_pixels pal (FIndexed ti) bg (RPIndexed l) = Ok px ->
+    exists p, pal = Some p /\ forall i, In i l -> exists e, zfind i p = Some e.
+Proof. exact validate_pixels_indexed_ok. Qed.
+Print Assumptions C11_complete_covered.
+
+Theorem C11_complete_tileset :
+  forall (pal : option palette) (fmt : pixfmt) (t : tileset rawpixels) (rp : rawpixels),
+    ts_pixels t = Some rp -> uncovered pal rp -> validate_tileset pal fmt t = Err EInvalid.
+Proof. exact validate_tileset_uncovered. Qed.
+Print Assumptions C11_complete_tileset.
+
+Theorem C11_complete_cel :
+  forall (layers : arr layer) (tss : zmap (tileset pixels)) (pal : option palette) (fmt : pixfmt)
+         (t : celtable rawpixels) (nframes nlayers layer_id : Z) (c : cel rawpixels) (w h : Z) (rp : rawpixels),
+    c_content c = CRaw w h rp -> uncovered pal rp ->
+    validate_cel layers tss pal fmt t nframes nlayers layer_id c
+    = match aget layers layer_id with Some _ => Err EInvalid | None => Panic 105 end.
+Proof. exact validate_cel_uncovered. Qed.
+Print Assumptions C11_complete_cel.
+
+(* hence validation, and loading, of such a file does not succeed *)
+Theorem C11_complete_validate :
+  forall (hd : header) (p : pinfo) (f : file), incomplete p -> validate hd p <> Ok f.
+Proof. exact validate_incomplete. Qed.
+Print Assumptions C11_complete_validate.
+
+Theorem C11_complete_load :
+  forall (inflate : list Z -> Z -> zres) (bs : list Z) (hd : header) (p : pinfo) (rest : list Z) (f : file),
+    run (parse_file inflate) bs = Ok ((hd, p), rest) -> incomplete p -> load inflate bs <> Ok f.
+Proof. exact load_incomplete. Qed.
+Print Assumptions C11_complete_load.
